@@ -31,17 +31,19 @@ COMPONENTS = {
     'stub': ['user objective with failure plan', 'PRNG seam', 'joblib', 'time.time', 'uuid1'],
 }
 PROBES_EXPECTED = ['run_family', 'direct_family', 'view_readback', 'maximised_goal_optimum', 'duplicate_values', 'unsorted_tags',
-                   'rerolled_designs', 'gd_checked', 'eps_checked']
+                   'rerolled_designs', 'gd_checked', 'eps_checked', 'queried_again_after_more_recordings']
 
 
 def _pairs(a, b):
     return sorted(zip([float(x) for x in a], [float(y) for y in b]))
 
 
-def check_queries(ctx, p, ledger, tags_in_order):
-    """ledger: list of (individual, tag, vector, costs) in recording order; p: the problem the queries read"""
+def check_queries(ctx, p, ledger, tags_in_order, res=None):
+    """ledger: list of (individual, tag, vector, costs) in recording order; p: the problem the queries read;
+    res: a Results object that may already have answered queries about an earlier state of the same problem"""
     from artap.results import Results
-    res = Results(p)
+    if res is None:
+        res = Results(p)
     site = 'Results'
     ctx.check()
     by_tag = {}
@@ -268,7 +270,26 @@ def _direct(D):
         ctx.probe('duplicate_values')
     try:
         with W.quiet():
-            check_queries(ctx, p, ledger, tags)
+            from artap.results import Results
+            res = Results(p)
+            check_queries(ctx, p, ledger, tags, res)
+            # the history goes on (a second run on the same problem, more generations) and the SAME Results object is asked
+            # again: a view must describe the recorded data as it is now, not as it was at the first query
+            k2 = D.dec('work', 'k2', 6)
+            if k2 and not ctx.violations:
+                ctx.probe('queried_again_after_more_recordings')
+                for i in range(k, k + k2):
+                    vec = W.gen_vector(w, D, 'work', ('v', i))
+                    ind = Individual(vec)
+                    ind.costs = w.f(vec)
+                    ind.calc_signed_costs(w.signs)
+                    ind.state = ind.State.EVALUATED
+                    ind.population_id = D.dec('work', ('tag', i), 7)
+                    ind.features['front_number'] = 1
+                    p.individuals.append(ind)
+                    ledger.append((ind, ind.population_id, list(ind.vector), list(ind.costs)))
+                tags = [l[1] for l in ledger]
+                check_queries(ctx, p, ledger, tags, res)
             if not ctx.violations:
                 check_indicators(ctx, D, [l[3] for l in ledger], 'direct')
     except (kernel.Deadlock, kernel.StepCap):
